@@ -2495,8 +2495,10 @@ def r10_hooks(ctx, ids=('R10.0', 'R10.1', 'R10.3'), only_hooks=None):
                                   or atom_is(a, "hasattr(%s, '%s')" % (X, hook), False))
             cn = f.nid(c)
             ok = True
+            # alternative spellings of the one call (`hook(node, obj)` / `hook(node)` chosen by the hook's signature) count together
+            same_recv = {f.nid(c2) for c2 in calls if norm(c2.func) == norm(c.func) and f.nid(c2) is not None}
             for ret in f.cfg.returns():
-                if not f.cfg.must_pass(f.cfg.entry, ret, notdef | {cn}):
+                if not f.cfg.must_pass(f.cfg.entry, ret, notdef | {cn} | same_recv):
                     # exits inside an except handler that converts are fine
                     node_ast = f.cfg.nodes[ret].ast
                     if node_ast is not None and any(isinstance(a, ast.ExceptHandler) for a in _ancestors_list(node_ast)):
@@ -2624,12 +2626,21 @@ def r10_hooks(ctx, ids=('R10.0', 'R10.1', 'R10.3'), only_hooks=None):
     g = fn(P, 'yatiml.representers:Representer.__call__')
     sw = [c for c in g.calls('__sweeten') if g.live(c)]
     rm = [c for c in g.calls('represent_mapping') if g.live(c)]
+    # which argument of __sweeten is the class and which the node: by what the callee does with its parameters (the class is the
+    # receiver of the hook call, the node is what the hook is given), not by position
+    sweet = fn(P, 'yatiml.representers:Representer.__sweeten')
+    hook_calls_ = [x for x in sweet.walk() if isinstance(x, ast.Call) and isinstance(x.func, ast.Attribute) and x.func.attr == '_yatiml_sweeten']
+    cls_par = norm(hook_calls_[0].func.value) if hook_calls_ else None
+    node_par = norm(hook_calls_[0].args[0]) if hook_calls_ and hook_calls_[0].args else None
+    sp = sweet.fi.params[1:]
     for c in sw:
         r4.check(bool(rm) and all(g.cfg.dominates(g.nid(m_), g.nid(c)) for m_ in rm), 'sweeten follows represent_mapping',
                  g.key('sweeten-after-represent'), g.loc(c), 'sweeten runs before the attribute mapping was represented')
-        r4.check(len(c.args) == 3 and norm(c.args[1]) == 'self.class_', 'sweeten starts at the represented object\'s class',
+        byname = {pn: a for pn, a in zip(sp, c.args)}
+        byname.update({k_.arg: k_.value for k_ in c.keywords if k_.arg})
+        r4.check(cls_par in byname and norm(byname[cls_par]) == 'self.class_', 'sweeten starts at the represented object\'s class',
                  g.key('sweeten-class'), g.loc(c), 'sweeten is started with %s' % [norm(a) for a in c.args])
-        w = c.args[2] if len(c.args) == 3 else None
+        w = byname.get(node_par)
         for ret in g.returns():
             val = g.copies.expand(ret.value) if ret.value is not None else None
             txt = norm(val) if val is not None else ''
